@@ -2,13 +2,13 @@ use crate::{
     Error, ErrorKind, FormatOptions, Result, Trivia,
     trivia::{TriviaItem, TriviaIterator, TriviaToken},
 };
-use koto_lexer::Position;
+use koto_lexer::{Lexer, Position};
 use koto_parser::{
     Ast, AstCatch, AstFor, AstIf, AstIndex, AstNode, AstString, AstTry, AstUnaryOp, ChainNode,
     ConstantIndex, ConstantPool, Function, ImportItem, KString, Node, ParserOptions, Span,
     StringAlignment, StringContents, StringFormatOptions, StringNode,
 };
-use std::{cell::OnceCell, iter};
+use std::{cell::OnceCell, collections::BTreeMap};
 use unicode_width::{UnicodeWidthChar, UnicodeWidthStr};
 
 /// Returns the input source formatted according to the provided options
@@ -911,25 +911,31 @@ struct FormatContext<'source> {
     source: &'source str,
     ast: &'source Ast,
     options: &'source FormatOptions,
-    // The byte offset of each line's start
-    line_offsets: Vec<u32>,
+    // The byte offsets of the start and end positions of the source's tokens
+    //
+    // A position's column isn't a byte offset when its line contains non-ASCII characters,
+    // so spans are mapped back to the source via the token boundaries.
+    token_starts: BTreeMap<Position, usize>,
+    token_ends: BTreeMap<Position, usize>,
 }
 
 impl<'source> FormatContext<'source> {
     fn new(source: &'source str, ast: &'source Ast, options: &'source FormatOptions) -> Self {
-        let line_offsets = iter::once(0)
-            .chain(
-                source
-                    .char_indices()
-                    .filter_map(|(i, c)| if c == '\n' { Some(i as u32 + 1) } else { None }),
-            )
-            .collect();
+        let mut token_starts = BTreeMap::new();
+        let mut token_ends = BTreeMap::new();
+        for token in Lexer::new(source) {
+            token_starts
+                .entry(token.span.start)
+                .or_insert(token.source_bytes.start);
+            token_ends.insert(token.span.end, token.source_bytes.end);
+        }
 
         Self {
             source,
             ast,
             options,
-            line_offsets,
+            token_starts,
+            token_ends,
         }
     }
 
@@ -946,9 +952,14 @@ impl<'source> FormatContext<'source> {
     }
 
     fn source_slice(&self, span: &Span) -> &'source str {
-        let start = self.line_offsets[span.start.line as usize] + span.start.column;
-        let end = self.line_offsets[span.end.line as usize] + span.end.column;
-        &self.source[start as usize..end as usize]
+        match (
+            self.token_starts.get(&span.start),
+            self.token_ends.get(&span.end),
+        ) {
+            (Some(start), Some(end)) if start <= end => &self.source[*start..*end],
+            // Spans always start and end on token boundaries
+            _ => "",
+        }
     }
 }
 
